@@ -79,7 +79,7 @@ PROPS["C06"] = {
     "quick": {"budget_s": 20},
     "thorough": {"budget_s": 300},
     "floors": {
-        "quick": {"scripts": 3000, "seek.end_i64min": 100, "seek.cur_i64min": 100, "seek.start_u64max": 100, "seek.end_i64max": 100, "seek.cur_i64max": 100,
+        "quick": {"orphan_handle_scripts_with_exhausted_window": 20, "scripts": 3000, "seek.end_i64min": 100, "seek.cur_i64min": 100, "seek.start_u64max": 100, "seek.end_i64max": 100, "seek.cur_i64max": 100,
                   "scripts_big": 10, "differential_scripts_compared": 1000, "fresh_handle_readbacks": 10000, "huge.scenarios_passed": 5, "start.foreign_dirty_slack": 5000, "orphan_handle_scripts": 3000},
         "thorough": {"scripts": 30000, "scripts_big": 300},
     },
@@ -91,13 +91,13 @@ PROPS["C07"] = {
             "independent parser's view of the sibling trees, onto entries with two children while handles sit on their in-order "
             "predecessor / successor / parent), creations reusing the freed slot, overwrites/resizes of other streams (payloads include runs of zeros covering whole aligned sectors, written over non-zero data; the root carries a CLSID and state bits in two cases of three; a third of the handles are opened under a letter-case variant, half are dropped dirty instead of flushed; a third of the histories go on from the reopened bytes after the sibling trees were repainted with a legal colouring that has red nodes; one step in forty is an episode on scratch streams: a listing in progress while a handle grows a stream, or create_stream over a stream with a live handle while a lower directory slot is free); per-step "
             "len/position check, and at checkpoints (all handles flushed) the full dump through fresh lookups AND through the "
-            "independent parser is compared with the model. non-trivial = history with >= 1 two-child removal; distinct = FNV-64 of steps",
+            "independent parser is compared with the model. One step in forty is a handle-after-removal episode: a handle (with or without unwritten changes) is used again - flush, drop, set_len, write - after its stream was removed and the freed directory slot was left free or taken by a new stream or storage; its own answers are not judged, every other object must be untouched, live and in the stored bytes. non-trivial = history with >= 1 two-child removal; distinct = FNV-64 of steps",
     "assumptions": COMMON_ASSUMPTIONS + ["a stream with a live handle is never removed or overwritten (outside the property)"],
     "checked_share": 0.6,
     "quick": {"budget_s": 20},
     "thorough": {"budget_s": 300},
     "floors": {
-        "quick": {"start.repainted_red_nodes": 3000, "two_child_removals": 5000, "two_child_removal_with_handle_on.predecessor": 1000, "creations_reusing_slot_with_live_handles": 5000,
+        "quick": {"handles_used_after_removal": 1000, "start.repainted_red_nodes": 3000, "two_child_removals": 5000, "two_child_removal_with_handle_on.predecessor": 1000, "creations_reusing_slot_with_live_handles": 5000,
                   "handle_ops_after_slot_reuse": 5000, "checkpoints": 5000, "huge.scenarios_passed": 5, "listings_across_a_write": 10000, "recreations_under_a_handle": 10000},
         "thorough": {"two_child_removals": 50000, "two_child_removal_with_handle_on.predecessor": 10000},
     },
@@ -147,7 +147,7 @@ PROPS["C10"] = {
             "existing name incl. case variant, non-empty storage, root, escaping path, invalid name, multi-step create_storage_all / "
             "remove_storage_all, out-of-range seek with a dirty buffer), long-lived dirty handles mixed in; for every call the model "
             "predicts as refused and that is refused: zero write events on the backing store, bytes identical, handle len/position "
-            "unchanged, and all later dumps equal a model that never saw the call; a call refused with NotFound / AlreadyExists / InvalidInput although the model expected success must leave the bytes unchanged too; eight shards first run a wide scenario (storage with 1023-1500 children in a chain: five predicted refusals, then remove_stream of the deepest and a mid-chain entry and remove_storage_all, each judged if refused); one shard grows a version 3 stream to 2 GiB - 1, 2 GiB, 2 GiB + 1000 on a sparse store (a refusal there must leave the store unchanged). One quiescent point in 25 runs a stale-handle episode: two handles opened together on a scratch stream, a third resizes it and goes away, one of the two makes out-of-range seeks (store untouched, len() unmoved after each), then both are asked the same questions and must answer alike. Refusal steps also come as refused / obstacle repaired / same call again sequences. non-trivial = >= 3 refusals checked; distinct = FNV-64 of steps",
+            "unchanged, and all later dumps equal a model that never saw the call; a call refused with NotFound / AlreadyExists / InvalidInput although the model expected success must leave the bytes unchanged too; eight shards first run a wide scenario (storage with 1023-1500 children in a chain: five predicted refusals, then remove_stream of the deepest and a mid-chain entry and remove_storage_all, each judged if refused); one shard grows a version 3 stream to 2 GiB - 1, 2 GiB, 2 GiB + 1000 on a sparse store (a refusal there must leave the store unchanged). One quiescent point in 25 runs a stale-handle episode: two handles opened together on a scratch stream, a third resizes it and goes away, one of the two makes out-of-range seeks (store untouched, len() unmoved after each), then both are asked the same questions and must answer alike. Refusal steps also come as refused / obstacle repaired / same call again sequences. A set_len with a length no compound file can hold (refused with InvalidInput) is judged like the other refusals, also when the handle has unwritten changes. non-trivial = >= 3 refusals checked; distinct = FNV-64 of steps",
     "assumptions": COMMON_ASSUMPTIONS,
     "checked_share": 0.6,
     "quick": {"budget_s": 18},
@@ -187,14 +187,14 @@ PROPS["C17"] = {
             "classes: epoch +-{0,1,99,100,101 ns}, sub-100ns fractions, 1601 exactly +-, year 1000, now, 9999, the tick limit +-, year 1e5, "
             "random) on 5-80 entries interleaved with structural changes; checks: entry/listing/walk immediately (model with independent "
             "i128 tick arithmetic), reopen in both modes, raw bytes through the independent parser (GUID field layout, tick value), "
-            "clock window of new storages and touch; a fifth of the histories start from a synthesised foreign file whose unallocated directory entries carry stale CLSID / state / time fields; one setter in twelve is preceded by a failed attempt on a store that fails one underlying call (the same setter, then repeated by the step; or, for storages, a setter of another field that is not repeated and whose visible outcome is adopted). non-trivial = >= 3 metadata calls; distinct = FNV-64 of steps",
+            "clock window of new storages and touch; a fifth of the histories start from a synthesised foreign file whose unallocated directory entries carry stale CLSID / state / time fields; one setter in twelve is preceded by a failed attempt on a store that fails one underlying call (the same setter, then repeated by the step; or, for storages, a setter of another field that is not repeated and whose visible outcome is adopted). Right after a setter that failed on a store hiccup, lookups are compared with what the stored bytes reopen to (whichever value the failed call left, both must agree). non-trivial = >= 3 metadata calls; distinct = FNV-64 of steps",
     "assumptions": COMMON_ASSUMPTIONS + ["set_modified_time / touch on the root changes the root's time (code behaviour; the doc comment of touch says otherwise)",
                                          "a clock window sample is skipped if the wall clock stepped backwards between the two readings"],
     "checked_share": 0.6,
     "quick": {"budget_s": 15},
     "thorough": {"budget_s": 240},
     "floors": {
-        "quick": {"live_checks": 200000, "reopen_checks": 50000, "raw_byte_checks": 50000, "clock_window_checks": 10000,
+        "quick": {"failed_setter_live_vs_stored_checked": 300, "live_checks": 200000, "reopen_checks": 50000, "raw_byte_checks": 50000, "clock_window_checks": 10000,
                   "time_class.before_1601_saturates": 2000, "time_class.beyond_tick_limit_saturates": 2000, "time_class.off_grid_before_1970": 5000,
                   "time_class.off_grid_after_1970": 5000, "stream_touch_noop_checked": 300, "start.foreign_dirty_free_slots": 2000, "setter_first_attempt_failed": 5000, "other_setter_failed_and_not_repeated": 2000},
         "thorough": {"live_checks": 2000000},
@@ -227,14 +227,14 @@ PROPS["C04"] = {
             "roles permuted with FREE sectors in between, fragmented non-monotone chains, directory entries in random slots with gaps, "
             "textbook red-black sibling trees, permuted mini sectors, FAT sectors anywhere, garbage in all unowned bytes (a third), one or two spare FAT sectors (two fifths; such files are then grown until the library appends a FAT sector of its own), other header minor versions, red tops of sibling trees where that creates no red-red edge, a partial final sector (file ends after the last used byte), a spare DIFAT sector at the end of the chain (such files are grown by 140 KB and the stored bytes reopened), opened with several buffer sizes, one > 109-FAT-sector DIFAT-chain image per "
             "shard; on two shards a version 4 file of 1-4.8 GB built sector by sector on the sparse store - 237-436 or 1133-1152 FAT sectors placed at every third sector, one or two DIFAT sectors with more than 127 entries in use, second directory sector and a scrambled stream chain in the last sectors - opened in both modes, read, extended into its free sectors and past its FAT, and reopened); must pass the synth/refparse self-check (else harness error), then open strict+permissive with dump == tree and "
-            "case-variant lookups, then a 10-30 step history with the C01+C02+C03 monitors. non-trivial = image with >= 3 objects "
+            "case-variant lookups, then a 10-30 step history with the C01+C02+C03 monitors. One case in twelve has no small stream at all and a root entry whose starting sector field holds 0 or the first sector of a stream (meaningless without a mini stream); a third of the other layouts do the same when they happen to have no mini stream. non-trivial = image with >= 3 objects "
             "accepted in both modes; distinct = FNV-64 of the image bytes",
     "assumptions": COMMON_ASSUMPTIONS + ["synth.rs writes only spec-valid layouts (enforced per image by refparse's rule set and logical decode)"],
     "checked_share": 0.6,
     "quick": {"budget_s": 20},
     "thorough": {"budget_s": 300},
     "floors": {
-        "quick": {"opened.Strict": 8000, "opened.Permissive": 8000, "layout.red_nodes": 5000, "layout.dir_gaps": 5000, "layout.fragmented_chain": 3000,
+        "quick": {"layout.no_mini_stream_stale_root_start": 100, "opened.Strict": 8000, "opened.Permissive": 8000, "layout.red_nodes": 5000, "layout.dir_gaps": 5000, "layout.fragmented_chain": 3000,
                   "layout.out_of_order_fat": 5000, "layout.free_sectors_inside": 2000, "layout.difat_chain": 8, "mutated_afterwards": 8000, "layout.spare_fat_sectors": 1500, "layout.dirty_slack_and_free_sectors": 1500, "spare_fat_filled_past_coverage": 800, "layout.partial_final_sector": 15, "spare_difat_grown_and_reopened": 1, "sparse_foreign.scenarios_passed": 2, "sparse_foreign.modified_and_reopened": 2},
         "thorough": {"opened.Strict": 100000, "layout.difat_chain": 50, "sparse_foreign.scenarios_passed": 2},
     },
